@@ -1,10 +1,29 @@
 import Pywbem.Model.CimJson
+import Pywbem.Model.CimXmlDec
 open Lean Pywbem.Proto Pywbem.Model Pywbem.Model.CimJson Pywbem.Model.XmlText
 
 /-! C01 driver.  ops:
-  {"op":"enc","obj":obj,"codec":{…}}            -> {"xml":cps}            ser (encObj o)
-  {"op":"txt","s":cps}                          -> {"text":cps|null,"attr":cps|null}   wireText / wireAttr
+  {"op":"enc","obj":obj,"codec":{…}}   -> {"xml":cps}                          ser (encObj o)
+  {"op":"dec","tree":tt,"codec":{…}}   -> {"ok":obj} | {"exc":…}               decode 8 tree
+  {"op":"txt","s":cps}                 -> {"text":cps|null,"attr":cps|null}    wireText / wireAttr
 -/
+
+def decCodecOfJson (j : Json) : DecCodec :=
+  let truncs : List (UInt64 × Except PyExc Int) := (getArr j "truncs").filterMap (fun e => match e with
+    | .arr a => some (bitsOf (a[0]!), match a[1]! with
+        | .str s => (match s.toInt? with
+            | some i => .ok i
+            | none => if s == "OverflowError" then .error .overflowError else .error .valueError)
+        | _ => .error .valueError)
+    | _ => none)
+  let fofi : List (Int × Option UInt64) := (getArr j "fofi").filterMap (fun e => match e with
+    | .arr a => some ((jsonToInt? (a[0]!)).getD 0, match a[1]! with | .null => none | b => some (bitsOf b))
+    | _ => none)
+  { toCodec := codecOfJson j,
+    truncFloat := fun b => match truncs.find? (fun e => e.1 == b) with
+      | some e => e.2 | none => .error .valueError,
+    floatOfInt := fun i => match fofi.find? (fun e => e.1 == i) with
+      | some e => e.2 | none => none }
 
 def handle (j : Json) : Json :=
   match getStr j "op" with
@@ -12,6 +31,10 @@ def handle (j : Json) : Json :=
     match objOfJson (getField j "obj") with
     | some o => Json.mkObj [("xml", cpsToJson (encObj (codecOfJson (getField j "codec")) o).ser)]
     | none => Json.mkObj [("bad", "obj")]
+  | some "dec" =>
+    match decode (decCodecOfJson (getField j "codec")) 8 (xmlOfJson (getField j "tree")) with
+    | .ok o => Json.mkObj [("ok", objToJson o)]
+    | .error e => e.toJson
   | some "txt" =>
     let s := (getChars j "s").getD []
     Json.mkObj [("text", optToJson cpsToJson (wireText s)), ("attr", optToJson cpsToJson (wireAttr s))]
